@@ -271,6 +271,8 @@ def gen_case(rng, lens, dtype, op=None, recv="fresh", vclass="small", j=None):
         vclass = "medium"
     if vclass in ("bigfloat", "nonfinite") and np.dtype(dtype).kind != "f":
         vclass = "small"
+    if np.dtype(dtype).name in [np.dtype(d_).name for d_ in gen.DT_EXOTIC] and vclass in ("bigfloat", "nonfinite", "huge", "medium"):
+        vclass = "small"        # (complex / extended-precision columns: exactly summable values; whether inf + -inf inside a column raises an 'invalid' event depends on numpy's loop for the type)
     c = mk_case(lens, dtype, _vals(rng, dtype, sum(lens), vclass), op, j, recv, vclass)
     if rng.random() < 0.25 and vclass == "small":
         c["rewrite"] = {"how": rng.choice(["ravel", "row", "iterrow", "cell"]), "pos": rng.randrange(10 ** 6), "val": rng.choice([0, 1, 3, 7])}
